@@ -545,7 +545,16 @@ class CallMixin:
 
     def x_sorted(self, args: List[V], kwargs: Dict[str, V], node: Any) -> Optional[V]:
         if args:
-            return Term("sorted", (args[0],), kind="list", node=node)
+            ek = self._elem_kind(args[0])
+            if isinstance(args[0], (ListV, TupleV, SetV)) and args[0].concrete():
+                ks = {self.kind_of(x) for x in args[0].items}
+                ek = ks.pop() if len(ks) == 1 else None
+            if "key" not in kwargs and ek not in ("str", "int", "float", "bool", "bytes"):
+                # elements of unknown / mixed kinds need not be mutually orderable
+                self.partial("sorted", (TypeError,), node, operands=(args[0],))
+            t = Term("sorted", (args[0],), kind="list", node=node)
+            t.elem_kind = ek  # type: ignore
+            return t
         return None
 
     def x_all(self, args: List[V], kwargs: Dict[str, V], node: Any) -> Optional[V]:
@@ -574,6 +583,10 @@ class CallMixin:
         x = args[0]
         t = Term("deepcopy", (x,), kind=self.kind_of(x), node=node)
         return t
+
+    def x_copy_copy(self, args: List[V], kwargs: Dict[str, V], node: Any) -> Optional[V]:
+        x = args[0]
+        return Term("copy", (x,), kind=self.kind_of(x), node=node)
 
     def x_property(self, args: List[V], kwargs: Dict[str, V], node: Any) -> Optional[V]:
         return Term("property", tuple(args), node=node)
@@ -727,6 +740,10 @@ class CallMixin:
 
     # ------------------------------------------------------------------ methods of symbolic receivers
     def _call_method_sym(self, recv: V, attr: str, args: List[Any], kwargs: Dict[str, V], node: Any) -> V:
+        if isinstance(recv, Term) and recv.op == "call" and recv.args and recv.args[0] in ("random.Random", "random.SystemRandom") \
+                and attr in ("randint", "randrange", "choice", "uniform", "random", "shuffle", "seed", "sample", "choices"):
+            self.emit("private_rng", node, rng=recv, attr=attr)
+            return self._call_ext(f"random.{attr}", args, kwargs, node)
         k = self.kind_of(recv)
         if attr == "__accept__":
             return self.accept(recv, args, kwargs, node)
@@ -744,6 +761,8 @@ class CallMixin:
             kind = "bool"
         if attr in ("get_errors", "split", "rsplit"):
             kind = "list"
+        if attr == "get" and args and k in ("dict", None) and self.known_fact(f"in({args[0].key()}, {recv.key()})") is False:
+            return args[1] if len(args) > 1 else Const(None)      # the key is known to be absent on this path
         if attr == "items":
             return Term("items", (recv,), kind="iterator", node=node)
         if attr == "keys":
